@@ -150,7 +150,7 @@ Example c15_nonvacuous :
                     (entry up0 (fun _ => Some 0) (fun _ => XForward 0) wp0 (fun _ => MHasResp) prog0)
                     empty_world q0 true None in
   map (fun x => opts_of (m_extra (snd x))) (w_log (fst res)) = [[Opt 1200 false 0 0 [(10, 2); (8, 1)]]]
-  /\ option_map (fun r => opts_of (m_extra r)) (snd res) = Some [Opt 1200 true 0 0 [(10, 7); (8, 5)]]
+  /\ option_map (fun r => opts_of (m_extra r)) (snd res) = Some [Opt 1200 true 0 0 [(8, 5); (10, 7)]]
   /\ stores_no_opt empty_world.
 Proof. split; [vm_compute; reflexivity|]. split; [vm_compute; reflexivity|]. intros i k v []. Qed.
 
